@@ -128,6 +128,7 @@ def run(ctx):
             dis.append(dict(case=c.replay(), detail=d[:3], sig=dict(kind="fp", stage="correspondence", dt=c.dt,
                                                                     variant=fc.VARIANTS[c.v])))
         fc.oracle_conservation(ctx, c, fres[c.cid])
+        fc.oracle_cache_independent(ctx, c, fres[c.cid])    # (family stfp) the step reads nothing but data_in and the table
         rnd.fp3_oracle(ctx, c, fres[c.cid])      # 3-point step against the proved rounding term (C01_fp3_rounding_any_axis)
     ctx.sample(fcases[0].describe())
     ctx.sample(fcases[-1].describe())
@@ -139,6 +140,8 @@ def run(ctx):
                         "theorem (C01_sm_row_kick_rounding, C01_fp3_rounding_any_axis) and these bounds are the oracle tolerances; the "
                         "model-vs-implementation comparison of whole outputs still uses the exact/tolerance streams (DESIGN 3)"]
     coq = kc.downgrade_usm(ctx, coq, dis, validated=len(cases) > 0)
+    cache_ok = sum(1 for k in ctx.nontrivial if isinstance(k, tuple) and len(k) == 2 and k[1] == "cache-independent") >= 20
+    coq = fc.fploop_downgrade(ctx, coq, dis, cache_ok, "whole-grid outputs of every fp case equal to the model's, cache-independence probe")
     conclude(ctx, coq, dis)
 
 
